@@ -265,6 +265,7 @@ def handleSampler (variant : String) (a : List String) : String :=
         | "planet" => some (Gen.Sampler.planet nx ny u v)
         | "zeroleft" => some (Gen.Sampler.zeroleft nx ny u v)
         | "galactic" => some (Gen.Sampler.galactic nx ny u v)
+        | "ecliptic" => some (Gen.Sampler.ecliptic nx ny u v)
         | _ => none
       match r? with
       | some r => s!"{r.1} {r.2}"
